@@ -68,6 +68,21 @@ def try_get_args(n: fx.Node, parent: fx.GraphModule,
     return arg if arg is not None else default
 
 
+def normalize_dim(dim: Any, rank: int) -> Any:
+    """Turns an axis index counted from the end (negative) into the equivalent non-negative index
+
+    :param dim: the axis index, possibly negative or None
+    :type dim: Any
+    :param rank: the number of axes it refers to
+    :type rank: int
+    :return: the non-negative axis index (None is passed through)
+    :rtype: Any
+    """
+    if isinstance(dim, int) and dim < 0:
+        return dim + rank
+    return dim
+
+
 def all_output_nodes(n: fx.Node) -> List[fx.Node]:
     """Return the list of successors for a fx.Node since
     torch.fx does not provide this functionality, but only gives input nodes
